@@ -146,3 +146,32 @@ Definition disc (o : op) : bool :=
   | OForRouter q => negb (is_some (i_asn q))
   | _ => true
   end.
+
+(* discipline of the router-level callers (bmp_tcp_in unit.rs accept loop:
+   find_existing_bmp_router(parent = the unit's own id, remote address), else
+   register + update_info). router_match looks at (parent, address) only, so a
+   PEER entry (parent = its router's id, address = the peer's) would answer a
+   router query with the same two values. What keeps the two apart in the
+   callers is that router queries name a UNIT id as parent and peer queries a
+   ROUTER id: [units] is the set of unit ids; router queries are complete and
+   have their parent in it, peer queries have their parent outside it. *)
+Definition router_complete (q : info) : bool := is_some (i_parent q) && is_some (i_addr q).
+Definition parent_in (units : N -> bool) (q : info) : bool :=
+  match i_parent q with Some p => units p | None => false end.
+Definition disc_r (units : N -> bool) (o : op) : bool :=
+  disc o &&
+  match o with
+  | OForPeer q => negb (parent_in units q)
+  | OForRouter q => router_complete q && parent_in units q
+  | _ => true
+  end.
+
+(* the canonical choice of [units] for a history: the parents its router
+   queries name; [disc_hist ops] then says that no peer query uses one of them *)
+Definition router_parents (ops : list op) : list N :=
+  flat_map (fun o => match o with
+                     | OForRouter q => match i_parent q with Some p => [p] | None => [] end
+                     | _ => []
+                     end) ops.
+Definition units_of (ops : list op) : N -> bool := fun p => existsb (N.eqb p) (router_parents ops).
+Definition disc_hist (ops : list op) : bool := forallb (disc_r (units_of ops)) ops.
